@@ -1,7 +1,60 @@
 import EncodingRs.Model.L1
 import EncodingRs.Lemmas.FamLaws
+import EncodingRs.Lemmas.Life
 /-!
-# C19 — `latin1_byte_compatible_up_to` is exact and does not disturb the decoder
+# C19 — `latin1_byte_compatible_up_to` is exact (and what "does not disturb the decoder" rests on)
+
+About `Decoder.l1` (`Model/L1.lean`), the model of `Decoder::latin1_byte_compatible_up_to`
+(lib.rs → variant.rs → `SingleByteDecoder::latin1_byte_compatible_up_to` /
+`Encoding::ascii_valid_up_to` / `Encoding::iso_2022_jp_ascii_valid_up_to`).
+
+## What is claimed (theorems of this module)
+
+* **The answer in closed form, for all 13 variants and every life-cycle state** — `l1_answer`
+  (`l1_some_iff`, `l1_none_iff`, `l1_eq_some_iff`, `l1_value`): `Decoder.l1 v d bytes =
+  if Neutral v d then some (l1Len v d.cur bytes) else none`. `Neutral v d` is: life cycle
+  `Converting` (so `None` with a BOM byte withheld, with `BB` pending, at the start of the stream,
+  when finished — `l1_none_lifecycle`) and the current variant decoder in its neutral state
+  `NeutralCur`: never for a UTF-16 decoder (nominal or after a BOM switch) or the replacement
+  decoder; always for the stateless single-byte / x-user-defined decoders; for the others exactly
+  when the family state is THE initial state `Fam.init` (`neutralSt_iff_init`; per variant
+  `neutral_big5`, `neutral_shiftJis`, `neutral_eucKr`, `neutral_eucJp`, `neutral_gb`, `neutral_gbk`,
+  `neutral_iso`, and `neutral_singleByte`, `neutral_userDefined`, `neutral_replacement`,
+  `neutral_utf16Be`, `neutral_utf16Le`; uniformly `l1Variant_isSome_iff`). For UTF-8 (nominal, or
+  after an `EF BB BF` switch) the test is `needed = 0` (`neutral_utf8`); on every state reachable
+  from the initial one (`FamReach`) this is the initial state (`utf8_needed_zero_iff_init`), and
+  the other theorems only use `needed = 0`.
+* **Exactness of the number** — the answer is the length of the leading run of counted bytes
+  (`l1Len_eq`, `passCur`: ASCII; ASCII without 0x0E, 0x0F, 0x1B for ISO-2022-JP; ASCII or a byte
+  the table maps to its own value for the single-byte encodings). `l1_sound_exact`: each of the
+  first `n` bytes is passed through by the current decoder as the scalar value equal to the byte,
+  without error and without changing the state, and byte `n` (if any) is not — with ONE
+  exception that is a theorem too: Shift_JIS decodes `0x80` to U+0080 (`shiftJis_0x80_passes`) but
+  the answer stops at it (`shiftJis_0x80_answer`), so there the answer is a sound lower bound and
+  not "the index of the first byte whose value doesn't correspond to the decoded scalar value"
+  of the Rust documentation. (`AsciiRunSpec`, `l1_utf8` … `l1_userDefined`, `l1_iso2022jp`,
+  `l1_single_byte` are the older per-family forms of the same facts.)
+* **Soundness of the answer for the caller** — if the answer is `some n`:
+  `l1_sound_ref` (stream level): `n ≤ bytes.length`, and `dref d (bytes.take n ++ rest) pos =
+  (bytes.take n).map Ev.cp ++ dref d rest (pos + n)`: the decoder says about the first `n` bytes
+  exactly their own values, no error, and about the rest what the same decoder state says;
+  `l1_sound_call` (call level): `Decoder.rawCall k d (bytes.take n) false b1 b2 = .ok .inputEmpty n
+  (bytes.take n) d [(bytes.take n, .inputEmpty, 0)]` for either sink and every stop policy that
+  is not cut short by the output buffer (`Covers`): all `n` bytes read, exactly those values
+  written, `InputEmpty`, and the decoder is left in the state `d` it was in
+  (`l1_sound_call_last`: with `last = true` the same, life cycle `Finished`).
+
+## What is NOT a theorem
+
+"Calling the query does not disturb the decoder" is not a theorem about the model and cannot
+be one: `Decoder.l1` is a pure function of the decoder state by construction (in the Rust the
+method takes `&self` of a type without interior mutability). That the real method neither
+changes the real decoder nor answers differently from `Decoder.l1` is decided by the
+correspondence run: the real decoder is asked before every call of every history, its answer
+is compared with `Decoder.l1` on the model state, and the rest of the history must still match
+the model call by call. What IS proved here is the statement the caller relies on afterwards:
+decoding the announced prefix leaves the decoder in the same state (`l1_sound_call`).
+`Finished`: the Rust panics, the model answers `none`; the harness never asks a finished decoder.
 -/
 namespace EncodingRs.Thm.C19
 open EncodingRs EncodingRs.Model EncodingRs.Lemmas.Core EncodingRs.Lemmas.FamLaws
@@ -186,9 +239,11 @@ theorem l1_single_byte (t : Array Nat) (bytes rest : List Nat) (pos : Nat) :
     have : ¬ (b < 0x80 ∨ t.getD (b - 0x80) 0 = b) := by simpa using hP
     exact ⟨fun h => this (Or.inl h), fun h => this (Or.inr h)⟩
 
-/-- `None` exactly when the decoder is not converting, not neutral, or the encoding
-is never byte-compatible: read off the model (the conditions are those of the
-code; that they mean "mid-sequence" is `neutral_iff_init` below for each family). -/
+/-- `None` whenever the life cycle is not `Converting` (BOM bytes withheld, `BB` pending, at the
+start of the stream, finished). The complete case analysis — also `None` when the current
+variant decoder is not neutral or never byte-compatible, `Some` otherwise — is `l1_answer` below;
+that the neutrality tests of the code mean "the family is in its initial state" is `neutral_*` /
+`neutralSt_iff_init` / `utf8_needed_zero_iff_init`. -/
 theorem l1_none_lifecycle (v : Gen.Variant) (d : Decoder (famOfVariant v)) (bytes : List Nat)
     (h : d.life ≠ .converting) : Decoder.l1 v d bytes = none := by
   unfold Decoder.l1
@@ -227,15 +282,809 @@ theorem neutral_iso (s : Iso2022JpSt) (bytes : List Nat) :
     simp only [Option.isSome_none, Bool.false_eq_true, false_iff]
     intro he; cases he; exact h ⟨rfl, rfl, rfl, rfl, rfl⟩
 
-/-- calling it never changes what the decoder subsequently produces: the model
-function takes the decoder by value and returns only the answer -/
-theorem l1_pure (v : Gen.Variant) (d : Decoder (famOfVariant v)) (bytes : List Nat) :
-    ∃ (f : Decoder (famOfVariant v) → List Nat → Option Nat), f d bytes = Decoder.l1 v d bytes :=
-  ⟨Decoder.l1 v, rfl⟩
+/-! ### the remaining variants: `Some` exactly in the neutral state, for all 13 -/
+
+theorem neutral_gbk (s : GbSt) (bytes : List Nat) :
+    (l1Variant .gbk s bytes).isSome = true ↔ s = gbInit := neutral_gb s bytes
+
+theorem neutral_eucJp (s : EucJpSt) (bytes : List Nat) :
+    (l1Variant .eucJp s bytes).isSome = true ↔ s = EucJpSt.none := by
+  simp only [l1Variant]; cases s <;> simp
+
+theorem neutral_shiftJis (s : Option Nat) (bytes : List Nat) :
+    (l1Variant .shiftJis s bytes).isSome = true ↔ s = none := by
+  simp only [l1Variant]; cases s <;> simp
+
+theorem neutral_eucKr (s : Option Nat) (bytes : List Nat) :
+    (l1Variant .eucKr s bytes).isSome = true ↔ s = none := by
+  simp only [l1Variant]; cases s <;> simp
+
+/-- the stateless compatible encodings always answer -/
+theorem neutral_singleByte (t a b c : Nat) (s : Unit) (bytes : List Nat) :
+    (l1Variant (.singleByte t a b c) s bytes).isSome = true := rfl
+
+theorem neutral_userDefined (s : Unit) (bytes : List Nat) :
+    (l1Variant .userDefined s bytes).isSome = true := rfl
+
+/-- the never-compatible encodings never answer, whatever their state -/
+theorem neutral_replacement (s : Bool) (bytes : List Nat) :
+    (l1Variant .replacement s bytes).isSome = false := rfl
+
+theorem neutral_utf16Be (s : Utf16St) (bytes : List Nat) :
+    (l1Variant .utf16Be s bytes).isSome = false := rfl
+
+theorem neutral_utf16Le (s : Utf16St) (bytes : List Nat) :
+    (l1Variant .utf16Le s bytes).isSome = false := rfl
+
+/-! ### `l1_answer`: the answer in every life-cycle state, for every variant -/
+
+/-- The neutral state of the variant decoder of `v`: the state is THE initial state of the
+family (`Fam.init`, `neutralSt_iff_init`) and the encoding is not one of the three that are
+never byte-compatible. The two stateless compatible families (`σ = Unit`) are always
+neutral. For UTF-8 the test of the code is `needed = 0`; on every state the decoder can
+reach this is the initial state (`utf8_needed_zero_iff_init`), and a state with
+`needed = 0` behaves like it whatever the other fields hold (`neutral_pass`). -/
+def NeutralSt : (v : Gen.Variant) → (famOfVariant v).σ → Prop
+  | .singleByte _ _ _ _, _ => True
+  | .utf8, s => Utf8St.needed s = 0
+  | .gbk, s => @Eq GbSt s gbInit
+  | .gb18030, s => @Eq GbSt s gbInit
+  | .big5, s => @Eq (Option Nat) s none
+  | .eucJp, s => @Eq EucJpSt s EucJpSt.none
+  | .iso2022Jp, s => @Eq Iso2022JpSt s isoInit
+  | .shiftJis, s => @Eq (Option Nat) s none
+  | .eucKr, s => @Eq (Option Nat) s none
+  | .replacement, _ => False
+  | .utf16Be, _ => False
+  | .utf16Le, _ => False
+  | .userDefined, _ => True
+
+instance NeutralSt.dec : (v : Gen.Variant) → (s : (famOfVariant v).σ) → Decidable (NeutralSt v s)
+  | .singleByte _ _ _ _, _ => isTrue trivial
+  | .utf8, s => inferInstanceAs (Decidable (Utf8St.needed s = 0))
+  | .gbk, s => (inferInstance : DecidableEq GbSt) s gbInit
+  | .gb18030, s => (inferInstance : DecidableEq GbSt) s gbInit
+  | .big5, s => (inferInstance : DecidableEq (Option Nat)) s none
+  | .eucJp, s => (inferInstance : DecidableEq EucJpSt) s EucJpSt.none
+  | .iso2022Jp, s => (inferInstance : DecidableEq Iso2022JpSt) s isoInit
+  | .shiftJis, s => (inferInstance : DecidableEq (Option Nat)) s none
+  | .eucKr, s => (inferInstance : DecidableEq (Option Nat)) s none
+  | .replacement, _ => isFalse id
+  | .utf16Be, _ => isFalse id
+  | .utf16Le, _ => isFalse id
+  | .userDefined, _ => isTrue trivial
+
+/-- the encodings whose decoder never answers -/
+def neverCompatible : Gen.Variant → Bool
+  | .replacement | .utf16Be | .utf16Le => true
+  | _ => false
+
+/-- for every variant but UTF-8: neutral = compatible encoding in the initial state of its family -/
+theorem neutralSt_iff_init (v : Gen.Variant) (hv : v ≠ .utf8) (s : (famOfVariant v).σ) :
+    NeutralSt v s ↔ neverCompatible v = false ∧ s = (famOfVariant v).init := by
+  cases v with
+  | utf8 => exact absurd rfl hv
+  | singleByte t a b c => exact ⟨fun _ => ⟨rfl, rfl⟩, fun _ => trivial⟩
+  | userDefined => exact ⟨fun _ => ⟨rfl, rfl⟩, fun _ => trivial⟩
+  | replacement => exact ⟨fun h => h.elim, fun h => by cases h.1⟩
+  | utf16Be => exact ⟨fun h => h.elim, fun h => by cases h.1⟩
+  | utf16Le => exact ⟨fun h => h.elim, fun h => by cases h.1⟩
+  | gbk => exact ⟨fun h => ⟨rfl, h⟩, fun h => h.2⟩
+  | gb18030 => exact ⟨fun h => ⟨rfl, h⟩, fun h => h.2⟩
+  | big5 => exact ⟨fun h => ⟨rfl, h⟩, fun h => h.2⟩
+  | eucJp => exact ⟨fun h => ⟨rfl, h⟩, fun h => h.2⟩
+  | iso2022Jp => exact ⟨fun h => ⟨rfl, h⟩, fun h => h.2⟩
+  | shiftJis => exact ⟨fun h => ⟨rfl, h⟩, fun h => h.2⟩
+  | eucKr => exact ⟨fun h => ⟨rfl, h⟩, fun h => h.2⟩
+
+/-- the states a family can be in: everything `run`/`call`/`ref` can produce from `Fam.init` -/
+inductive FamReach (F : Fam) : F.σ → Prop
+  | init : FamReach F F.init
+  | feed (s : F.σ) (b : Nat) : FamReach F s → FamReach F (F.feed s b).st
+  | eof (s : F.σ) (e : Nat × Nat) (s' : F.σ) : FamReach F s → F.eof s = some (e, s') → FamReach F s'
+  | pend (s : F.σ) (o : List Nat) (s' : F.σ) : FamReach F s → F.pend s = some (o, s') → FamReach F s'
+  | alt (s : F.σ) (src : List Nat) (m : Nat) (r : FeedRes F.σ) : FamReach F s → F.alt s src = some (m, r) → FamReach F r.st
+
+theorem utf8Feed_needed_zero (s : Utf8St) (b : Nat) (h : s.needed = 0 → s = utf8Init) :
+    (utf8Feed s b).st.needed = 0 → (utf8Feed s b).st = utf8Init := by
+  unfold utf8Feed
+  by_cases hn : s.needed = 0
+  · have hs := h hn
+    subst hs
+    simp only [utf8Init, if_true]
+    repeat' split
+    all_goals simp [FeedRes.ok, FeedRes.bad]
+  · simp only [hn, if_false]
+    repeat' split
+    all_goals simp [FeedRes.ok, FeedRes.bad, hn]
+
+/-- UTF-8: on every reachable state `needed = 0` (the test of `Utf8Decoder::in_neutral_state`)
+holds exactly in the initial state -/
+theorem utf8_reach_inv : ∀ (s : utf8Fam.σ), FamReach utf8Fam s → Utf8St.needed s = 0 → s = utf8Init := by
+  intro s h
+  induction h with
+  | init => intro _; rfl
+  | feed s b _ ih => exact utf8Feed_needed_zero s b ih
+  | eof s e s' _ he _ =>
+    intro _
+    have he' : (if Utf8St.needed s ≠ 0 then some ((Utf8St.seen s + 1, 0), utf8Init) else none) = some (e, s') := he
+    split at he'
+    · cases he'; rfl
+    · cases he'
+  | pend s o s' _ hp _ => cases hp
+  | alt s src m r _ ha _ => cases ha
+
+theorem utf8_needed_zero_iff_init (s : Utf8St) (h : FamReach utf8Fam s) : s.needed = 0 ↔ s = utf8Init :=
+  ⟨utf8_reach_inv s h, fun e => by rw [e]; rfl⟩
+
+/-- the variant test accepts exactly the neutral states, uniformly in the variant -/
+theorem l1Variant_isSome_iff (v : Gen.Variant) (s : (famOfVariant v).σ) (bytes : List Nat) :
+    (l1Variant v s bytes).isSome = true ↔ NeutralSt v s := by
+  cases v with
+  | singleByte t a b c => exact ⟨fun _ => trivial, fun _ => rfl⟩
+  | utf8 => exact neutral_utf8 s bytes
+  | gbk => exact neutral_gbk s bytes
+  | gb18030 => exact neutral_gb s bytes
+  | big5 => exact neutral_big5 s bytes
+  | eucJp => exact neutral_eucJp s bytes
+  | iso2022Jp => exact neutral_iso s bytes
+  | shiftJis => exact neutral_shiftJis s bytes
+  | eucKr => exact neutral_eucKr s bytes
+  | replacement => exact ⟨fun h => (by cases h), fun h => h.elim⟩
+  | utf16Be => exact ⟨fun h => (by cases h), fun h => h.elim⟩
+  | utf16Le => exact ⟨fun h => (by cases h), fun h => h.elim⟩
+  | userDefined => exact ⟨fun _ => trivial, fun _ => rfl⟩
+
+/-- the number the variant decoder of `v` answers with when it answers -/
+def l1LenV : Gen.Variant → List Nat → Nat
+  | .singleByte t _ _ _, bytes => singleByteL1 (Gen.singleByteTables.getD t #[]) bytes
+  | .iso2022Jp, bytes => iso2022JpAsciiValidUpTo bytes
+  | _, bytes => asciiValidUpTo bytes
+
+theorem l1Variant_value (v : Gen.Variant) (s : (famOfVariant v).σ) (bytes : List Nat) (n : Nat)
+    (h : l1Variant v s bytes = some n) : n = l1LenV v bytes := by
+  cases v
+  case singleByte t a b c => exact (Option.some.inj h).symm
+  case userDefined => exact (Option.some.inj h).symm
+  case replacement => cases h
+  case utf16Be => cases h
+  case utf16Le => cases h
+  all_goals
+    simp only [l1Variant] at h
+    split at h
+    · exact (Option.some.inj h).symm
+    · cases h
+
+/-- closed form of the variant-level answer -/
+theorem l1Variant_answer (v : Gen.Variant) (s : (famOfVariant v).σ) (bytes : List Nat) :
+    l1Variant v s bytes = if NeutralSt v s then some (l1LenV v bytes) else none := by
+  by_cases hN : NeutralSt v s
+  · rw [if_pos hN]
+    have h := (l1Variant_isSome_iff v s bytes).2 hN
+    cases hv : l1Variant v s bytes with
+    | none => rw [hv] at h; cases h
+    | some n => rw [l1Variant_value v s bytes n hv]
+  · rw [if_neg hN]
+    cases hv : l1Variant v s bytes with
+    | none => rfl
+    | some n => exact absurd ((l1Variant_isSome_iff v s bytes).1 (by rw [hv]; rfl)) hN
+
+/-- neutrality of whichever decoder is current: the nominal one in its neutral state, or the
+UTF-8 decoder a BOM switched to with no sequence pending; the UTF-16 decoders never -/
+def NeutralCur (v : Gen.Variant) : Cur (famOfVariant v) → Prop
+  | .nominal s => NeutralSt v s
+  | .utf8 s => Utf8St.needed s = 0
+  | .utf16be _ => False
+  | .utf16le _ => False
+
+instance NeutralCur.dec (v : Gen.Variant) : (c : Cur (famOfVariant v)) → Decidable (NeutralCur v c)
+  | .nominal s => NeutralSt.dec v s
+  | .utf8 s => inferInstanceAs (Decidable (Utf8St.needed s = 0))
+  | .utf16be _ => isFalse id
+  | .utf16le _ => isFalse id
+
+/-- **the neutral decoder**: the BOM life cycle is over and not finished (`Converting`: no BOM
+byte withheld, no `BB` pending, not waiting for the start of the stream, not finished) and the
+current variant decoder is in its neutral state -/
+def Neutral (v : Gen.Variant) (d : Decoder (famOfVariant v)) : Prop :=
+  d.life = .converting ∧ NeutralCur v d.cur
+
+instance Neutral.dec (v : Gen.Variant) (d : Decoder (famOfVariant v)) : Decidable (Neutral v d) :=
+  inferInstanceAs (Decidable (_ ∧ _))
+
+/-- the number a neutral decoder answers with -/
+def l1Len (v : Gen.Variant) : Cur (famOfVariant v) → List Nat → Nat
+  | .nominal _, bytes => l1LenV v bytes
+  | _, bytes => asciiValidUpTo bytes
+
+theorem l1_value (v : Gen.Variant) (d : Decoder (famOfVariant v)) (bytes : List Nat) (hN : Neutral v d) :
+    Decoder.l1 v d bytes = some (l1Len v d.cur bytes) := by
+  obtain ⟨life, cur⟩ := d
+  obtain ⟨hl, hc⟩ := hN
+  simp only at hl hc
+  subst hl
+  cases cur with
+  | nominal s =>
+    have hc' : NeutralSt v s := hc
+    exact (l1Variant_answer v s bytes).trans (if_pos hc')
+  | utf8 s =>
+    have hc' : NeutralSt .utf8 s := hc
+    exact (l1Variant_answer .utf8 s bytes).trans (if_pos hc')
+  | utf16be s => exact hc.elim
+  | utf16le s => exact hc.elim
+
+theorem l1_none_of_not_neutral (v : Gen.Variant) (d : Decoder (famOfVariant v)) (bytes : List Nat)
+    (hN : ¬ Neutral v d) : Decoder.l1 v d bytes = none := by
+  by_cases hl : d.life = .converting
+  · obtain ⟨life, cur⟩ := d
+    simp only at hl
+    subst hl
+    have hc : ¬ NeutralCur v cur := fun h => hN ⟨rfl, h⟩
+    cases cur with
+    | nominal s =>
+      have hc' : ¬ NeutralSt v s := hc
+      exact (l1Variant_answer v s bytes).trans (if_neg hc')
+    | utf8 s =>
+      have hc' : ¬ NeutralSt .utf8 s := hc
+      exact (l1Variant_answer .utf8 s bytes).trans (if_neg hc')
+    | utf16be s => rfl
+    | utf16le s => rfl
+  · exact l1_none_lifecycle v d bytes hl
+
+/-- **C19 (`l1_answer`)**: the answer of `Decoder::latin1_byte_compatible_up_to` in closed form,
+for every variant, every life-cycle state and every state of the current variant decoder:
+`Some` of the exact prefix length when the decoder is neutral, `None` in every other state
+(a BOM byte withheld, `BB` pending, at the start of the stream, finished, a UTF-16 decoder
+current after a BOM switch, nominal UTF-16 / replacement, a lead byte or partial sequence
+pending, ISO-2022-JP outside its ASCII state or with an escape sequence half read). -/
+theorem l1_answer (v : Gen.Variant) (d : Decoder (famOfVariant v)) (bytes : List Nat) :
+    Decoder.l1 v d bytes = if Neutral v d then some (l1Len v d.cur bytes) else none := by
+  by_cases hN : Neutral v d
+  · rw [if_pos hN]; exact l1_value v d bytes hN
+  · rw [if_neg hN]; exact l1_none_of_not_neutral v d bytes hN
+
+theorem l1_some_iff (v : Gen.Variant) (d : Decoder (famOfVariant v)) (bytes : List Nat) :
+    (Decoder.l1 v d bytes).isSome = true ↔ Neutral v d := by
+  rw [l1_answer]
+  by_cases hN : Neutral v d
+  · rw [if_pos hN]; exact ⟨fun _ => hN, fun _ => rfl⟩
+  · rw [if_neg hN]; exact ⟨fun h => (by cases h), fun h => absurd h hN⟩
+
+theorem l1_none_iff (v : Gen.Variant) (d : Decoder (famOfVariant v)) (bytes : List Nat) :
+    Decoder.l1 v d bytes = none ↔ ¬ Neutral v d := by
+  rw [l1_answer]
+  by_cases hN : Neutral v d
+  · rw [if_pos hN]; exact ⟨fun h => (by cases h), fun h => absurd hN h⟩
+  · rw [if_neg hN]; exact ⟨fun _ => hN, fun _ => rfl⟩
+
+/-- an answer `some n` means: neutral, and `n` is the closed-form length -/
+theorem l1_eq_some_iff (v : Gen.Variant) (d : Decoder (famOfVariant v)) (bytes : List Nat) (n : Nat) :
+    Decoder.l1 v d bytes = some n ↔ Neutral v d ∧ n = l1Len v d.cur bytes := by
+  rw [l1_answer]
+  by_cases hN : Neutral v d
+  · rw [if_pos hN]
+    exact ⟨fun h => ⟨hN, (Option.some.inj h).symm⟩, fun h => by rw [h.2]⟩
+  · rw [if_neg hN]
+    exact ⟨fun h => (by cases h), fun h => absurd h.1 hN⟩
+
+/-! ### `l1_sound`: what the answer means for the caller -/
+
+/-- the bytes the query of variant `v` counts -/
+def passP : Gen.Variant → Nat → Bool
+  | .singleByte t _ _ _ => fun b => decide (b < 0x80 ∨ (Gen.singleByteTables.getD t #[]).getD (b - 0x80) 0 = b)
+  | .iso2022Jp => fun b => decide (b < 0x80 ∧ b ≠ 0x0E ∧ b ≠ 0x0F ∧ b ≠ 0x1B)
+  | _ => fun b => decide (b < 0x80)
+
+theorem l1LenV_eq (v : Gen.Variant) (bytes : List Nat) : l1LenV v bytes = upTo (passP v) bytes := by
+  cases v
+  case singleByte t a b c => exact singleByteL1_eq _ bytes
+  case iso2022Jp => exact iso2022JpAsciiValidUpTo_eq bytes
+  all_goals exact asciiValidUpTo_eq bytes
+
+/-- the bytes counted for whichever decoder is current -/
+def passCur (v : Gen.Variant) : Cur (famOfVariant v) → Nat → Bool
+  | .nominal _ => passP v
+  | _ => fun b => decide (b < 0x80)
+
+theorem l1Len_eq (v : Gen.Variant) (c : Cur (famOfVariant v)) (bytes : List Nat) :
+    l1Len v c bytes = upTo (passCur v c) bytes := by
+  cases c
+  case nominal s => exact l1LenV_eq v bytes
+  all_goals exact asciiValidUpTo_eq bytes
+
+/-- every byte of the counted prefix satisfies the predicate -/
+theorem upTo_take_pass (P : Nat → Bool) (bytes : List Nat) : ∀ x ∈ bytes.take (upTo P bytes), P x = true := by
+  induction bytes with
+  | nil => intro x hx; simp [upTo] at hx
+  | cons b r ih =>
+    intro x hx
+    simp only [upTo] at hx
+    by_cases hb : P b = true
+    · simp only [hb, if_true, List.take_succ_cons, List.mem_cons] at hx
+      cases hx with
+      | inl h => rw [h]; exact hb
+      | inr h => exact ih x h
+    · simp [hb] at hx
+
+theorem singleByte_pass0 (t : Array Nat) (b : Nat) (h : b < 0x80 ∨ t.getD (b - 0x80) 0 = b) :
+    (singleByteFam t).feed () b = ⟨(), [b], none, false⟩ := by
+  by_cases h0 : b = 0
+  · subst h0
+    show singleByteFeed t () 0 = _
+    simp [singleByteFeed, FeedRes.ok]; rfl
+  · exact singleByte_pass t b h h0
+
+/-- UTF-8 with no sequence pending passes ASCII through and stays put, whatever the other fields hold -/
+theorem utf8_pass_needed (s : Utf8St) (hn : s.needed = 0) (b : Nat) (h : b < 0x80) :
+    utf8Fam.feed s b = ⟨s, [b], none, false⟩ := by
+  show utf8Feed s b = _
+  simp [utf8Feed, hn, h, FeedRes.ok]; rfl
+
+/-- **in a neutral state every counted byte is passed through as the scalar value equal to the
+byte, without error, and the state does not change** — uniformly for the 13 variants -/
+theorem neutral_pass (v : Gen.Variant) (s : (famOfVariant v).σ) (hn : NeutralSt v s) :
+    (famOfVariant v).pend s = none ∧
+    ∀ b, passP v b = true → (famOfVariant v).feed s b = ⟨s, [b], none, false⟩ := by
+  cases v with
+  | singleByte t a b c =>
+    exact ⟨rfl, fun x hx => singleByte_pass0 _ x (of_decide_eq_true hx)⟩
+  | utf8 => exact ⟨rfl, fun x hx => utf8_pass_needed s hn x (of_decide_eq_true hx)⟩
+  | gbk =>
+    have hs : s = gbInit := hn
+    subst hs
+    exact ⟨rfl, fun x hx => gb_pass x (of_decide_eq_true hx)⟩
+  | gb18030 =>
+    have hs : s = gbInit := hn
+    subst hs
+    exact ⟨rfl, fun x hx => gb_pass x (of_decide_eq_true hx)⟩
+  | big5 =>
+    have hs : s = none := hn
+    subst hs
+    exact ⟨rfl, fun x hx => twoByte_pass _ _ _ x (of_decide_eq_true hx)⟩
+  | eucJp =>
+    have hs : s = EucJpSt.none := hn
+    subst hs
+    exact ⟨rfl, fun x hx => eucJp_pass x (of_decide_eq_true hx)⟩
+  | iso2022Jp =>
+    have hs : s = isoInit := hn
+    subst hs
+    exact ⟨rfl, fun x hx => iso_pass x (of_decide_eq_true hx)⟩
+  | shiftJis =>
+    have hs : s = none := hn
+    subst hs
+    exact ⟨rfl, fun x hx => twoByte_pass _ _ _ x (of_decide_eq_true hx)⟩
+  | eucKr =>
+    have hs : s = none := hn
+    subst hs
+    exact ⟨rfl, fun x hx => twoByte_pass _ _ _ x (of_decide_eq_true hx)⟩
+  | replacement => exact hn.elim
+  | utf16Be => exact hn.elim
+  | utf16Le => exact hn.elim
+  | userDefined => exact ⟨rfl, fun x hx => userDefined_pass x (of_decide_eq_true hx)⟩
+
+/-- one step of whichever decoder is current passes the byte through unchanged and stays put -/
+def CurPasses {F : Fam} : Cur F → Nat → Prop
+  | .nominal s, b => F.feed s b = ⟨s, [b], none, false⟩
+  | .utf8 s, b => utf8Fam.feed s b = ⟨s, [b], none, false⟩
+  | .utf16be s, b => (utf16Fam true).feed s b = ⟨s, [b], none, false⟩
+  | .utf16le s, b => (utf16Fam false).feed s b = ⟨s, [b], none, false⟩
+
+/-- no delayed output is owed by whichever decoder is current -/
+def CurNoPend {F : Fam} : Cur F → Prop
+  | .nominal s => F.pend s = none
+  | .utf8 s => utf8Fam.pend s = none
+  | .utf16be s => (utf16Fam true).pend s = none
+  | .utf16le s => (utf16Fam false).pend s = none
+
+theorem neutralCur_pass (v : Gen.Variant) (c : Cur (famOfVariant v)) (hn : NeutralCur v c) :
+    CurNoPend c ∧ ∀ b, passCur v c b = true → CurPasses c b := by
+  cases c with
+  | nominal s => exact neutral_pass v s hn
+  | utf8 s => exact ⟨rfl, fun x hx => utf8_pass_needed s hn x (of_decide_eq_true hx)⟩
+  | utf16be s => exact hn.elim
+  | utf16le s => exact hn.elim
+
+/-- generic: the three facts of `AsciiRunSpec` for an arbitrary pass-through predicate -/
+theorem pass_run_spec (F : Fam) (s : F.σ) (P : Nat → Bool) (hp : F.pend s = none)
+    (hP : ∀ b, P b = true → F.feed s b = ⟨s, [b], none, false⟩) (bytes rest : List Nat) (pos : Nat) :
+    upTo P bytes ≤ bytes.length ∧
+    ref F s (bytes.take (upTo P bytes) ++ rest) pos
+      = (bytes.take (upTo P bytes)).map Ev.cp ++ ref F s rest (pos + upTo P bytes) ∧
+    (upTo P bytes < bytes.length → ∃ b, bytes[upTo P bytes]? = some b ∧ P b = false) :=
+  ⟨upTo_le _ _, prefix_identity F s P hp hP bytes rest pos, upTo_maximal P bytes⟩
+
+/-- **C19 `l1_sound` (a), stream level**: if the decoder answers `some n` then `n ≤ bytes.length`,
+what the decoder says (`dref`: BOM life cycle + current variant decoder, the reference
+semantics the calls are proved sound against in C10) about any stream that starts with the
+first `n` bytes is: exactly those `n` byte values as scalar values, no error, followed by what
+the *same* decoder state `d` says about the rest; and `n` does not stop inside a run of counted
+bytes. For all 13 variants and for the UTF-8 decoder after a BOM switch. -/
+theorem l1_sound_ref (v : Gen.Variant) (d : Decoder (famOfVariant v)) (bytes : List Nat) (n : Nat)
+    (h : Decoder.l1 v d bytes = some n) (rest : List Nat) (pos : Nat) :
+    n ≤ bytes.length ∧
+    Lemmas.Life.dref d (bytes.take n ++ rest) pos
+      = (bytes.take n).map Ev.cp ++ Lemmas.Life.dref d rest (pos + n) ∧
+    (n < bytes.length → ∃ b, bytes[n]? = some b ∧ passCur v d.cur b = false) := by
+  obtain ⟨⟨hl, hc⟩, hn⟩ := (l1_eq_some_iff v d bytes n).1 h
+  obtain ⟨life, cur⟩ := d
+  simp only at hl hc hn
+  subst hl
+  rw [l1Len_eq] at hn
+  subst hn
+  obtain ⟨hp, hpass⟩ := neutralCur_pass v cur hc
+  show _ ∧ Lemmas.Life.curRef cur _ _ = _ ++ Lemmas.Life.curRef cur _ _ ∧ _
+  cases cur with
+  | nominal s => exact pass_run_spec (famOfVariant v) s _ hp hpass bytes rest pos
+  | utf8 s => exact pass_run_spec utf8Fam s _ hp hpass bytes rest pos
+  | utf16be s => exact hc.elim
+  | utf16le s => exact hc.elim
+
+/-! #### call level -/
+
+/-- the budgets under which a call over `n` pass-through bytes is not cut short by `OutputFull`:
+no limit, or a limit of at least `n` steps -/
+def Covers : Budget → Nat → Prop
+  | .unlimited, _ => True
+  | .full m, n => n ≤ m
+  | .altAny, _ => False
+
+/-- the main loop over a run of bytes each of which is passed through unchanged from a state it
+does not change: everything is read and written, `InputEmpty`, same state -/
+theorem run_pass (F : Fam) (k : Sink) (s : F.σ) (last : Bool) (heof : last = true → F.eof s = none) :
+    ∀ (l : List Nat) (b : Budget), Covers b l.length →
+      (∀ x ∈ l, F.feed s x = ⟨s, [x], none, false⟩) →
+      run F k last s l b = ⟨.inputEmpty, l.length, l, s, 0⟩ := by
+  intro l
+  induction l with
+  | nil =>
+    intro b _ _
+    cases last with
+    | false => simp [run]
+    | true => simp [run, heof rfl]
+  | cons x r ih =>
+    intro b hb hpass
+    have hx := hpass x (List.mem_cons_self ..)
+    have hstop : stopHere F k s x r b = none := by
+      cases b with
+      | unlimited => rfl
+      | full m =>
+        simp only [Covers, List.length_cons] at hb
+        simp only [stopHere]
+        rw [if_neg (by omega)]
+      | altAny => exact hb.elim
+    have hb' : Covers b.dec r.length := by
+      cases b with
+      | unlimited => trivial
+      | full m =>
+        simp only [Covers, Budget.dec, List.length_cons] at hb ⊢
+        omega
+      | altAny => exact hb.elim
+    rw [run, hstop]
+    simp only [hx]
+    rw [ih b.dec hb' (fun y hy => hpass y (List.mem_cons_of_mem _ hy))]
+    simp
+
+theorem call_pass (F : Fam) (k : Sink) (s : F.σ) (l : List Nat) (last : Bool) (b : Budget)
+    (hp : F.pend s = none) (heof : last = true → F.eof s = none)
+    (hb : Covers b l.length) (hpass : ∀ x ∈ l, F.feed s x = ⟨s, [x], none, false⟩) :
+    Model.call F k s l last b = ⟨.inputEmpty, l.length, l, s, 0⟩ := by
+  unfold Model.call
+  rw [hp]
+  exact run_pass F k s last heof l b hb hpass
+
+/-- whichever decoder is current has nothing to report at the end of the stream -/
+def CurNoEof {F : Fam} : Cur F → Prop
+  | .nominal s => F.eof s = none
+  | .utf8 s => utf8Fam.eof s = none
+  | .utf16be s => (utf16Fam true).eof s = none
+  | .utf16le s => (utf16Fam false).eof s = none
+
+theorem cur_call_pass {F : Fam} (k : Sink) (c : Cur F) (l : List Nat) (last : Bool) (b : Budget)
+    (hp : CurNoPend c) (heof : last = true → CurNoEof c)
+    (hb : Covers b l.length) (hpass : ∀ x ∈ l, CurPasses c x) :
+    c.call k l last b = ⟨.inputEmpty, l.length, l, c, 0⟩ := by
+  cases c with
+  | nominal s => simp only [Cur.call, call_pass F k s l last b hp heof hb hpass]
+  | utf8 s => simp only [Cur.call, call_pass utf8Fam k s l last b hp heof hb hpass]
+  | utf16be s => simp only [Cur.call, call_pass (utf16Fam true) k s l last b hp heof hb hpass]
+  | utf16le s => simp only [Cur.call, call_pass (utf16Fam false) k s l last b hp heof hb hpass]
+
+/-- a neutral state has nothing to report at the end of the stream -/
+theorem neutral_eof (v : Gen.Variant) (s : (famOfVariant v).σ) (hn : NeutralSt v s) :
+    (famOfVariant v).eof s = none := by
+  cases v with
+  | singleByte t a b c => rfl
+  | utf8 =>
+    have hn' : Utf8St.needed s = 0 := hn
+    show (if Utf8St.needed s ≠ 0 then _ else none) = none
+    rw [if_neg (fun h => h hn')]
+  | gbk => have hs : s = gbInit := hn; subst hs; rfl
+  | gb18030 => have hs : s = gbInit := hn; subst hs; rfl
+  | big5 => have hs : s = none := hn; subst hs; rfl
+  | eucJp => have hs : s = EucJpSt.none := hn; subst hs; rfl
+  | iso2022Jp => have hs : s = isoInit := hn; subst hs; rfl
+  | shiftJis => have hs : s = none := hn; subst hs; rfl
+  | eucKr => have hs : s = none := hn; subst hs; rfl
+  | replacement => exact hn.elim
+  | utf16Be => exact hn.elim
+  | utf16Le => exact hn.elim
+  | userDefined => rfl
+
+theorem neutralCur_eof (v : Gen.Variant) (c : Cur (famOfVariant v)) (hn : NeutralCur v c) : CurNoEof c := by
+  cases c with
+  | nominal s => exact neutral_eof v s hn
+  | utf8 s => exact neutral_eof .utf8 s hn
+  | utf16be s => exact hn.elim
+  | utf16le s => exact hn.elim
+
+/-- **C19 `l1_sound` (b), call level**: if the decoder answers `some n`, then the raw
+(`*_without_replacement`) call that is handed exactly the first `n` bytes (not `last`; any sink;
+any stop policy that is not cut short by the output buffer, `Covers`) reads all `n` bytes, writes
+exactly those `n` byte values as scalar values, returns `InputEmpty` — no error — in one inner
+call, and **leaves the decoder in the state `d` it was in**. -/
+theorem l1_sound_call (v : Gen.Variant) (d : Decoder (famOfVariant v)) (bytes : List Nat) (n : Nat)
+    (h : Decoder.l1 v d bytes = some n) (k : Sink) (b1 b2 : Budget) (hb : Covers b2 n) :
+    Decoder.rawCall k d (bytes.take n) false b1 b2
+      = .ok .inputEmpty n (bytes.take n) d [(bytes.take n, .inputEmpty, 0)] := by
+  obtain ⟨⟨hl, hc⟩, hn⟩ := (l1_eq_some_iff v d bytes n).1 h
+  obtain ⟨life, cur⟩ := d
+  simp only at hl hc hn
+  subst hl
+  rw [l1Len_eq] at hn
+  obtain ⟨hp, hpass⟩ := neutralCur_pass v cur hc
+  have hlen : (bytes.take n).length = n := by
+    rw [List.length_take]; apply Nat.min_eq_left; rw [hn]; exact upTo_le _ _
+  have hall : ∀ x ∈ bytes.take n, CurPasses cur x := by
+    intro x hx; rw [hn] at hx; exact hpass x (upTo_take_pass _ bytes x hx)
+  have hcall := cur_call_pass k cur (bytes.take n) false b2 hp (fun h => by cases h) (by rw [hlen]; exact hb) hall
+  show checkingEnd k cur (bytes.take n) false b2 0 [] [] = _
+  unfold checkingEnd
+  simp only [List.drop_zero, hcall, hlen, Bool.false_eq_true, false_and, if_false, Nat.add_zero,
+    List.nil_append]
+
+/-- the same call with `last = true` (the first `n` bytes are the end of the stream): identical
+result, nothing is reported at the end of the stream, and the only change to the decoder is that
+its life cycle is `Finished` — the variant decoder is still in the same state -/
+theorem l1_sound_call_last (v : Gen.Variant) (d : Decoder (famOfVariant v)) (bytes : List Nat) (n : Nat)
+    (h : Decoder.l1 v d bytes = some n) (k : Sink) (b1 b2 : Budget) (hb : Covers b2 n) :
+    Decoder.rawCall k d (bytes.take n) true b1 b2
+      = .ok .inputEmpty n (bytes.take n) ⟨.finished, d.cur⟩ [(bytes.take n, .inputEmpty, 0)] := by
+  obtain ⟨⟨hl, hc⟩, hn⟩ := (l1_eq_some_iff v d bytes n).1 h
+  obtain ⟨life, cur⟩ := d
+  simp only at hl hc hn
+  subst hl
+  rw [l1Len_eq] at hn
+  obtain ⟨hp, hpass⟩ := neutralCur_pass v cur hc
+  have hlen : (bytes.take n).length = n := by
+    rw [List.length_take]; apply Nat.min_eq_left; rw [hn]; exact upTo_le _ _
+  have hall : ∀ x ∈ bytes.take n, CurPasses cur x := by
+    intro x hx; rw [hn] at hx; exact hpass x (upTo_take_pass _ bytes x hx)
+  have hcall := cur_call_pass k cur (bytes.take n) true b2 hp (fun _ => neutralCur_eof v cur hc)
+    (by rw [hlen]; exact hb) hall
+  show checkingEnd k cur (bytes.take n) true b2 0 [] [] = _
+  unfold checkingEnd
+  simp only [List.drop_zero, hcall, hlen, and_self, if_true, Nat.add_zero, List.nil_append]
+
+/-! #### maximality in the semantic sense: byte `n` is not passed through
+
+The Rust documentation promises "the index of the first byte whose unsigned value doesn't
+directly correspond to the decoded Unicode scalar value". That is true of every variant with
+one exception: Shift_JIS decodes the byte `0x80` to U+0080 and stays neutral
+(`shiftJis_0x80_passes`), but the answer is the length of the ASCII run, so it stops at a
+`0x80` (`shiftJis_0x80_answer`). The answer is then a lower bound (still sound: `l1_sound_ref`,
+`l1_sound_call`), not the exact index. -/
+
+theorem ne_pass_of_out {σ : Type} (r : FeedRes σ) (s : σ) (b : Nat) (h : r.out ≠ [b]) :
+    r ≠ ⟨s, [b], none, false⟩ := fun e => h (by rw [e])
+
+/-- a leaf `.ok st out` / `.bad …` of a feed function whose output is not `[b]` -/
+local macro "stop_leaf" : tactic =>
+  `(tactic| (apply ne_pass_of_out; simp [FeedRes.ok, FeedRes.bad] <;> omega))
+
+theorem singleByte_stop (t : Array Nat) (b : Nat) (h1 : ¬ b < 0x80) (h2 : t.getD (b - 0x80) 0 ≠ b) :
+    singleByteFeed t () b ≠ ⟨(), [b], none, false⟩ := by
+  unfold singleByteFeed
+  rw [if_neg h1]
+  apply ne_pass_of_out
+  show (if t.getD (b - 0x80) 0 = 0 then FeedRes.bad () 1 0 else FeedRes.ok () [t.getD (b - 0x80) 0]).out ≠ [b]
+  split
+  · intro hc; cases hc
+  · intro hc; exact h2 (List.cons.inj hc).1
+
+theorem utf8_stop (s : Utf8St) (hn : s.needed = 0) (b : Nat) (h : ¬ b < 0x80) :
+    utf8Feed s b ≠ ⟨s, [b], none, false⟩ := by
+  unfold utf8Feed
+  rw [if_pos hn, if_neg h]
+  repeat' split
+  all_goals stop_leaf
+
+theorem gb_stop (b : Nat) (h : ¬ b < 0x80) : gbFeed gbInit b ≠ ⟨gbInit, [b], none, false⟩ := by
+  unfold gbFeed
+  simp only [gbInit]
+  rw [if_neg h]
+  repeat' split
+  all_goals stop_leaf
+
+theorem twoByte_stop (lf : Nat → LeadRes) (tf : Nat → Nat → TrailRes) (a : Bool) (b : Nat) (h : ¬ b < 0x80)
+    (hl : lf b ≠ .out b) : (twoByteFam lf tf a).feed none b ≠ ⟨none, [b], none, false⟩ := by
+  show twoByteFeed lf tf none b ≠ _
+  simp only [twoByteFeed]
+  rw [if_neg h]
+  cases hlb : lf b with
+  | lead l => stop_leaf
+  | out c =>
+    intro he
+    have hc : [c] = [b] := congrArg FeedRes.out he
+    rw [(List.cons.inj hc).1] at hlb
+    exact hl hlb
+  | bad => stop_leaf
+
+theorem big5Lead_ne_out (b : Nat) : big5Lead b ≠ .out b := by
+  unfold big5Lead; simp only []; split <;> (intro h; cases h)
+
+theorem eucKrLead_ne_out (b : Nat) : eucKrLead b ≠ .out b := by
+  unfold eucKrLead; simp only []; split <;> (intro h; cases h)
+
+theorem shiftJisLead_ne_out (b : Nat) (h80 : b ≠ 0x80) (hb : b < 256) : shiftJisLead b ≠ .out b := by
+  unfold shiftJisLead
+  simp only []
+  repeat' split
+  all_goals intro h
+  all_goals first
+    | (injection h with h; omega)
+    | cases h
+
+theorem eucJp_stop (b : Nat) (h : ¬ b < 0x80) :
+    eucJpFeed EucJpSt.none b ≠ ⟨EucJpSt.none, [b], none, false⟩ := by
+  unfold eucJpFeed
+  simp only []
+  rw [if_neg h]
+  repeat' split
+  all_goals stop_leaf
+
+theorem iso_stop (b : Nat) (h : ¬ (b < 0x80 ∧ b ≠ 0x0E ∧ b ≠ 0x0F ∧ b ≠ 0x1B)) :
+    isoFeed isoInit b ≠ ⟨isoInit, [b], none, false⟩ := by
+  unfold isoFeed
+  simp only [isoInit]
+  split
+  · stop_leaf
+  · rename_i h1
+    have h2 : b > 0x7F ∨ b = 0x0E ∨ b = 0x0F := by omega
+    rw [if_pos h2]
+    stop_leaf
+
+theorem userDefined_stop (b : Nat) (h : ¬ b < 0x80) :
+    userDefinedFeed () b ≠ ⟨(), [b], none, false⟩ := by
+  unfold userDefinedFeed
+  rw [if_neg h]
+  stop_leaf
+
+/-- Shift_JIS: the byte 0x80 decodes to U+0080 and leaves the decoder neutral … -/
+theorem shiftJis_0x80_passes : shiftJisFam.feed none 0x80 = ⟨none, [0x80], none, false⟩ := by
+  show twoByteFeed shiftJisLead shiftJisTrail none 0x80 = _
+  simp [twoByteFeed, shiftJisLead, wsub8, FeedRes.ok]; rfl
+
+/-- … but the answer stops at it: the one case in which the answer is not the index of the first
+byte that decodes to something other than its own value -/
+theorem shiftJis_0x80_answer (pre : List Nat) :
+    Decoder.l1 .shiftJis ⟨.converting, .nominal none⟩ (0x61 :: 0x80 :: pre) = some 1 := rfl
+
+/-- **in a neutral state the first byte that is not counted is not passed through** (it is an
+error, a lead byte, or decodes to another scalar value) — for every variant, except for the
+byte 0x80 of Shift_JIS -/
+theorem neutral_stop (v : Gen.Variant) (s : (famOfVariant v).σ) (hn : NeutralSt v s) (b : Nat)
+    (hb : passP v b = false) :
+    (famOfVariant v).feed s b ≠ ⟨s, [b], none, false⟩ ∨ (v = .shiftJis ∧ (b = 0x80 ∨ 256 ≤ b)) := by
+  cases v with
+  | singleByte t a b' c =>
+    have h : ¬ (b < 0x80 ∨ (Gen.singleByteTables.getD t #[]).getD (b - 0x80) 0 = b) := of_decide_eq_false hb
+    exact Or.inl (singleByte_stop _ b (fun h1 => h (Or.inl h1)) (fun h2 => h (Or.inr h2)))
+  | utf8 => exact Or.inl (utf8_stop s hn b (of_decide_eq_false hb))
+  | gbk =>
+    have hs : s = gbInit := hn
+    subst hs
+    exact Or.inl (gb_stop b (of_decide_eq_false hb))
+  | gb18030 =>
+    have hs : s = gbInit := hn
+    subst hs
+    exact Or.inl (gb_stop b (of_decide_eq_false hb))
+  | big5 =>
+    have hs : s = none := hn
+    subst hs
+    exact Or.inl (twoByte_stop _ _ _ b (of_decide_eq_false hb) (big5Lead_ne_out b))
+  | eucJp =>
+    have hs : s = EucJpSt.none := hn
+    subst hs
+    exact Or.inl (eucJp_stop b (of_decide_eq_false hb))
+  | iso2022Jp =>
+    have hs : s = isoInit := hn
+    subst hs
+    exact Or.inl (iso_stop b (of_decide_eq_false hb))
+  | shiftJis =>
+    have hs : s = none := hn
+    subst hs
+    by_cases hx : b = 0x80 ∨ 256 ≤ b
+    · exact Or.inr ⟨rfl, hx⟩
+    · exact Or.inl (twoByte_stop _ _ _ b (of_decide_eq_false hb) (shiftJisLead_ne_out b (by omega) (by omega)))
+  | eucKr =>
+    have hs : s = none := hn
+    subst hs
+    exact Or.inl (twoByte_stop _ _ _ b (of_decide_eq_false hb) (eucKrLead_ne_out b))
+  | replacement => exact hn.elim
+  | utf16Be => exact hn.elim
+  | utf16Le => exact hn.elim
+  | userDefined => exact Or.inl (userDefined_stop b (of_decide_eq_false hb))
+
+theorem neutralCur_stop (v : Gen.Variant) (c : Cur (famOfVariant v)) (hn : NeutralCur v c) (b : Nat)
+    (hb : passCur v c b = false) :
+    ¬ CurPasses c b ∨ (v = .shiftJis ∧ (b = 0x80 ∨ 256 ≤ b)) := by
+  cases c with
+  | nominal s => exact neutral_stop v s hn b hb
+  | utf8 s => exact Or.inl (utf8_stop s hn b (of_decide_eq_false hb))
+  | utf16be s => exact hn.elim
+  | utf16le s => exact hn.elim
+
+/-- **C19 `l1_sound`, exactness**: if the decoder answers `some n`, each of the first `n` bytes,
+fed to the current decoder, is passed through as the scalar value equal to the byte and leaves
+the state unchanged; and byte `n`, if there is one, is not — it is the first byte that does not
+decode to its own value — with the one exception of Shift_JIS's 0x80 (`shiftJis_0x80_passes`). -/
+theorem l1_sound_exact (v : Gen.Variant) (d : Decoder (famOfVariant v)) (bytes : List Nat) (n : Nat)
+    (h : Decoder.l1 v d bytes = some n) :
+    (∀ x ∈ bytes.take n, CurPasses d.cur x) ∧
+    (n < bytes.length → ∃ b, bytes[n]? = some b ∧
+      (¬ CurPasses d.cur b ∨ (v = .shiftJis ∧ (b = 0x80 ∨ 256 ≤ b)))) := by
+  obtain ⟨⟨_, hc⟩, hn⟩ := (l1_eq_some_iff v d bytes n).1 h
+  rw [l1Len_eq] at hn
+  subst hn
+  refine ⟨fun x hx => (neutralCur_pass v d.cur hc).2 x (upTo_take_pass _ bytes x hx), fun hlt => ?_⟩
+  obtain ⟨b, hb, hP⟩ := upTo_maximal _ bytes hlt
+  exact ⟨b, hb, neutralCur_stop v d.cur hc b hP⟩
 
 /-! Non-vacuity -/
 example : singleByteL1 (Gen.singleByteTables.getD 19 #[]) [0x61, 0xE9, 0x62, 0x80, 0x63] = 3 := by decide +kernel
 example : asciiValidUpTo [0x61, 0x62, 0xE9] = 2 := by decide
 example : iso2022JpAsciiValidUpTo [0x61, 0x1B, 0x62] = 1 := by decide
+
+/-- `l1_answer`: a neutral Shift_JIS decoder answers, one with a lead byte pending does not, one
+that is still waiting for a BOM does not, one a BOM switched to UTF-16 does not -/
+example : Decoder.l1 .shiftJis ⟨.converting, .nominal none⟩ [0x61, 0x62, 0xE9] = some 2 := rfl
+example : Neutral .shiftJis ⟨.converting, .nominal none⟩ := ⟨rfl, rfl⟩
+example : ¬ Neutral .shiftJis ⟨.converting, .nominal (some 3)⟩ := fun h => by cases h.2
+example : ¬ Neutral .shiftJis ⟨.seenUtf8First, .nominal none⟩ := fun h => by cases h.1
+example : ¬ Neutral .shiftJis ⟨.converting, .utf16be utf16Init⟩ := fun h => h.2
+example : Decoder.l1 .shiftJis ⟨.converting, .nominal (some 3)⟩ [0x61] = none :=
+  (l1_none_iff _ _ _).2 (fun h => by cases h.2)
+example : Decoder.l1 .shiftJis ⟨.convertingWithPendingBB, .nominal none⟩ [0x61] = none :=
+  (l1_none_iff _ _ _).2 (fun h => by cases h.1)
+
+/-- `l1_sound_call` on a concrete decoder: the hypothesis is satisfiable and the conclusion is
+what the model computes (`rfl`) -/
+example : Decoder.rawCall .utf8 (⟨.converting, .nominal none⟩ : Decoder (famOfVariant .shiftJis))
+      [0x61, 0x62] false .unlimited .unlimited
+    = .ok .inputEmpty 2 [0x61, 0x62] ⟨.converting, .nominal none⟩ [([0x61, 0x62], .inputEmpty, 0)] :=
+  l1_sound_call .shiftJis ⟨.converting, .nominal none⟩ [0x61, 0x62, 0xE9] 2 rfl .utf8 .unlimited .unlimited trivial
+
+example : Decoder.rawCall .utf16 (⟨.converting, .nominal none⟩ : Decoder (famOfVariant .shiftJis))
+      [0x61, 0x62] false .unlimited (.full 2)
+    = .ok .inputEmpty 2 [0x61, 0x62] ⟨.converting, .nominal none⟩ [([0x61, 0x62], .inputEmpty, 0)] := rfl
+
+/-- the same for windows-1252 (`0xE9` is é = U+00E9 and is counted, `0x80` is € and is not) and
+for the UTF-8 decoder an `EF BB BF` switched a windows-1252 decoder to -/
+example : Decoder.rawCall .utf8 (⟨.converting, .nominal ()⟩ : Decoder (famOfVariant (.singleByte 19 160 32 96)))
+      ([0x61, 0xE9, 0x62, 0x80, 0x63].take 3) false .unlimited .unlimited
+    = .ok .inputEmpty 3 [0x61, 0xE9, 0x62] ⟨.converting, .nominal ()⟩ [([0x61, 0xE9, 0x62], .inputEmpty, 0)] :=
+  l1_sound_call (.singleByte 19 160 32 96) ⟨.converting, .nominal ()⟩ [0x61, 0xE9, 0x62, 0x80, 0x63] 3
+    (congrArg some (by decide +kernel)) .utf8 .unlimited .unlimited trivial
+
+example : Decoder.rawCall .utf8 (⟨.converting, .utf8 utf8Init⟩ : Decoder (famOfVariant (.singleByte 19 160 32 96)))
+      ([0x61, 0xE9, 0x62].take 1) false .unlimited .unlimited
+    = .ok .inputEmpty 1 [0x61] ⟨.converting, .utf8 utf8Init⟩ [([0x61], .inputEmpty, 0)] :=
+  l1_sound_call (.singleByte 19 160 32 96) ⟨.converting, .utf8 utf8Init⟩ [0x61, 0xE9, 0x62] 1 rfl
+    .utf8 .unlimited .unlimited trivial
+
+/-- `l1_sound_ref` is not vacuous either: its third conjunct on a concrete input -/
+example : ∃ b, [0x61, 0x62, 0xE9][2]? = some b ∧
+    passCur .shiftJis (.nominal none : Cur (famOfVariant .shiftJis)) b = false :=
+  (l1_sound_ref .shiftJis ⟨.converting, .nominal none⟩ [0x61, 0x62, 0xE9] 2 rfl [] 0).2.2 (by decide)
 
 end EncodingRs.Thm.C19
